@@ -71,12 +71,6 @@ def run_split_case(ctx, idx, rng, tmp):
             model["features"]["image"][0] = 0
         if zero_last:
             model["features"]["image"][-1] = 0
-    pin = tmp / "meas.rtdc"
-    gd.write_model(pin, model, with_index=bool(rng.random() < 0.5))
-    if rng.random() < 0.5:
-        from vmon.gen import h5layout
-        h5layout.add_raw_logs(pin, rng)
-        ctx.count("inputs_with_raw_h5py_logs")
     r = rng.random()
     divisors = [d for d in range(1, n + 1) if n % d == 0]
     if r < 0.15:
@@ -91,9 +85,28 @@ def run_split_case(ctx, idx, rng, tmp):
         se = n + int(rng.integers(1, 5))
     if ctx.tier == "quick":
         se = max(se, -(-n // 12))     # at most 12 parts in the quick tier
+    zero_mid = []
+    if "image" in model["features"] and n > 2 and rng.random() < 0.5:
+        # dropped frames (all-zero images) inside the measurement, preferably where a part
+        # ends or begins: only the first / last event of the *measurement* may be skipped
+        cand = sorted({k for b in range(se, n, se) for k in (b - 1, b) if 0 < k < n - 1})
+        if cand and rng.random() < 0.8:
+            zero_mid = [int(v) for v in rng.choice(cand, min(len(cand), int(rng.integers(1, 4))),
+                                                   replace=False)]
+        else:
+            zero_mid = [int(rng.integers(1, n - 1))]
+        for k in zero_mid:
+            model["features"]["image"][k] = 0
+        ctx.count("inputs_with_empty_image_inside")
+    pin = tmp / "meas.rtdc"
+    gd.write_model(pin, model, with_index=bool(rng.random() < 0.5))
+    if rng.random() < 0.5:
+        from vmon.gen import h5layout
+        h5layout.add_raw_logs(pin, rng)
+        ctx.count("inputs_with_raw_h5py_logs")
     skip = bool(rng.random() < 0.5)
     case = {"kind": "split", "n": n, "split_events": se, "skip_empty": skip,
-            "zero_first": zero_first, "zero_last": zero_last, "model": gd.describe(model)}
+            "zero_first": zero_first, "zero_last": zero_last, "zero_inside": zero_mid, "model": gd.describe(model)}
     outdir = tmp / "parts"
     outdir.mkdir()
     try:
